@@ -173,6 +173,7 @@ class SourceInfo:
         self.debug_assertions = debug_assertions
         self.struct_defs = {}
         self.enum_defs = {}
+        self.aliases = {}
         self.structs = {}  # name -> [field names] ; tuple structs -> ["0","1",..]
         self.enums = {}  # name -> [(variant, [field names])]
         self.files = {}
@@ -227,6 +228,14 @@ class SourceInfo:
 
     def _scan(self, txt):
         txt2 = re.sub(r"//[^\n]*", "", txt)
+        # pin-project projection types mirror the fields / variants of the type they project
+        for m in re.finditer(r"#\[(?:pin_project::)?pin_project(?:\(([^\]]*)\))?\]\s*(?:#\[[^\]]*\]\s*)*(?:pub(?:\([^)]*\))?\s+)?(?:enum|struct)\s+([A-Z][A-Za-z0-9_]*)", txt2):
+            base = m.group(2)
+            for am in re.finditer(r"(project|project_ref|project_replace)\s*=\s*([A-Za-z_][A-Za-z0-9_]*)", m.group(1) or ""):
+                self.aliases[am.group(2)] = base
+            self.aliases.setdefault("__" + base + "Projection", base)
+            self.aliases.setdefault("__" + base + "ProjectionRef", base)
+            self.aliases.setdefault("__" + base + "ProjectionOwned", base)
         for m in re.finditer(r"\bstruct\s+([A-Z][A-Za-z0-9_]*)\s*(<[^{;(]*>)?\s*(where[^{;]*)?\{", txt2):
             name = m.group(1)
             i = m.end() - 1
@@ -267,6 +276,7 @@ class SourceInfo:
     def lookup_enum(self, name, variant, fieldnames, segs):
         """variants of the enum `name` that has `variant` (and these field names); several enums of
         the same name exist in different modules: the path segments of the MIR aggregate break ties"""
+        name = self.aliases.get(name, name)
         defs = self.enum_defs.get(name, [])
         c = [(f, vs) for f, vs in defs if any(v == variant and (not fieldnames or set(fieldnames) <= set(fn)) for v, fn in vs)]
         if len(c) > 1:
@@ -285,6 +295,7 @@ class SourceInfo:
         raise Inconclusive(f"ambiguous enum {name}::{variant} in {[f for f, _ in c]}")
 
     def lookup_struct(self, name, fieldnames, segs):
+        name = self.aliases.get(name, name)
         defs = self.struct_defs.get(name, [])
         c = [(f, fs) for f, fs in defs if not fieldnames or set(fieldnames) <= set(fs)]
         if len(c) > 1:
@@ -589,6 +600,8 @@ class Ctx:
             raise Inconclusive(f"const index on {v!r}")
         if kind == "index":
             idx = step[1]
+            if hasattr(v, "mir_index"):
+                return v.mir_index(self, idx)
             if isinstance(v, Agg) and is_z3(idx):
                 s = z3.simplify(idx)
                 if z3.is_bv_value(s):
@@ -797,6 +810,17 @@ class Ctx:
                 return ~a
             if rv[1] == "Neg":
                 return -a
+            if rv[1] == "PtrMetadata":
+                v = a
+                while isinstance(v, Ref):
+                    v = self.load(v)
+                if hasattr(v, "mir_len"):
+                    return v.mir_len(self)
+                if isinstance(v, Agg):
+                    return z3.BitVecVal(len(v.f), 64)
+                if is_z3(v) and v.sort() == z3.StringSort():
+                    from models import len_bv
+                    return len_bv(self, v)
             raise Inconclusive("unop " + rv[1])
         if k == "cast":
             v = self.eval_operand(frame, fn, rv[1])
@@ -908,7 +932,7 @@ class Ctx:
             ty = segs[-2]
             if ty in STD_ENUMS and last in STD_ENUMS[ty]:
                 return Enum(ty, last, STD_ENUMS[ty].index(last), vals)
-            vs = self.src.lookup_enum(ty, last, names, segs[:-2]) if ty in self.src.enum_defs else None
+            vs = self.src.lookup_enum(ty, last, names, segs[:-2]) if self.src.aliases.get(ty, ty) in self.src.enum_defs else None
             if vs is not None:
                 for i, (vn, fns) in enumerate(vs):
                     if vn == last:
@@ -922,7 +946,7 @@ class Ctx:
         mm = self.models.get("adt:" + last) if self.models else None
         if mm is not None:
             return mm(self, vals, names)
-        fns = self.src.lookup_struct(last, names, segs[:-1]) if last in self.src.struct_defs else None
+        fns = self.src.lookup_struct(last, names, segs[:-1]) if self.src.aliases.get(last, last) in self.src.struct_defs else None
         if fns is not None:
             if names:
                 order = {n: i2 for i2, n in enumerate(fns)}
@@ -939,6 +963,8 @@ class Ctx:
         if names is None and not vals and len(segs) == 1:
             # bare unit variant of a foreign enum (e.g. io::ErrorKind::ConnectionReset): uninterpreted
             return Opaque("variant " + last)
+        if names and last in ("Range", "RangeFrom", "RangeTo", "RangeInclusive"):
+            return Agg("struct:" + last, vals)
         raise Inconclusive(f"aggregate of unknown type {path}")
 
     # ---- function execution ------------------------------------------------------------------
@@ -975,6 +1001,27 @@ class Ctx:
             if len(cands) > 1:
                 raise Inconclusive(f"ambiguous free function {plain}")
             return None
+        # pin-project generated inherent impls: `module::_::<impl Type<..>>::project`
+        mpp = re.search(r"::_::<impl ([A-Za-z_][A-Za-z0-9_]*)", c)
+        if mpp:
+            ty, meth0 = mpp.group(1), strip_generics(c).split("::")[-1]
+            cands = [f for f in self.prog.funcs if "::_::<impl at " in f.name and f.name.endswith(">::" + meth0) and len(f.args) == len(args)
+                     and f.args and re.search(r"\b" + ty + r"\b", f.args[0][1])]
+            if len(cands) == 1:
+                return cands[0]
+            if len(cands) > 1:
+                raise Inconclusive(f"ambiguous pin-project method {c}")
+        # function nested inside a method (`...::drop::__drop_inner`)
+        segs = [x for x in re.sub(r"^<.*?>::", "", plain).split("::") if x]
+        if len(segs) >= 2 and plain.startswith("<"):
+            suffix = "::" + "::".join(segs[-2:])
+            nested = [f for f in self.prog.funcs if f.name.endswith(suffix) and len(f.args) == len(args)]
+            if len(nested) > 1:
+                mq = re.match(r"<\s*([A-Za-z_][A-Za-z0-9_]*)", plain)
+                if mq:
+                    nested = [f for f in nested if f.args and re.search(r"\b" + mq.group(1) + r"\b", f.args[0][1])]
+            if len(nested) == 1:
+                return nested[0]
         # method / associated function
         meth = plain.split("::")[-1]
         if plain.startswith("<"):
@@ -1105,7 +1152,17 @@ class Ctx:
         raise Inconclusive(f"switchInt on {v!r}")
 
     def drop_value(self, v):
-        """drop glue: only models with observable drops care"""
+        """drop glue: hyperdriver types with a Drop impl run it (ctx.drop_impls: kind -> MIR function),
+        then fields are dropped; model objects observe drops through mir_drop"""
+        impls = getattr(self, "drop_impls", None)
+        if impls and isinstance(v, Agg) and v.kind in impls:
+            cell = Cell(v, "dropping")
+            self.exec_fn(impls[v.kind], [Ref(cell)])
+            v = cell.v
+            for x in v.f:
+                if x is not None and not is_z3(x):
+                    self.drop_value(x)
+            return
         if hasattr(v, "mir_drop"):
             v.mir_drop(self)
         elif isinstance(v, (Agg, Enum)):
